@@ -245,6 +245,93 @@ example :
        ([.key c!"mechanisms", .key c!"authenticators", .idx 1, .key c!"type"], "\"basic_auth\"")]) := by
   decide
 
+/-! ## the prefix of the variable names (`--env-config-prefix`)
+
+The theorems above speak about variable names with the prefix removed. The prefix is whatever the operator configured –
+upper, lower or mixed case, with or without a trailing `_`, padded with blanks on the command line – and the loader has
+to use it as written: the variables of the process that start with it (character by character) are the configuration,
+all others are none of its business. -/
+
+/-- The documented name of a property under ANY configured prefix is read back to the property: the loader removes the
+    (trimmed) prefix as written and reads the rest by the naming rule. -/
+theorem c20_prefix_name_roundtrip (configured : List Char) (p : Path) (h : pathOk p = true) :
+    (stripPrefix? (trimSpace configured) (trimSpace configured ++ envName p)).map parseName = some p := by
+  rw [stripPrefix?_append]
+  simp [parseName_envName p h]
+
+/-- the hypothesis is satisfiable, and the prefix may be in lower or mixed case and padded: `DemoCfg_LOG__LEVEL` -/
+example : pathOk [.key c!"log_level"] = true ∧ trimSpace c!" DemoCfg_ " = c!"DemoCfg_"
+    ∧ trimSpace c!" DemoCfg_ " ++ envName [.key c!"log_level"] = c!"DemoCfg_LOG__LEVEL" := by decide
+
+/-- Loading with a configured prefix from a process environment in which the variables carry that prefix is loading
+    the variables themselves: every statement above about `load` (leaf-wise result, the environment wins, untouched
+    places, permutations, file ≡ environment, every split) holds for every prefix. -/
+theorem c20_prefix_env_equiv (d f : Val) (configured : List Char) (env : Env) :
+    loadP d f configured (withPrefix (trimSpace configured) env) = load d f env := by
+  simp [loadP, selectEnv_withPrefix]
+
+/-- Variables of the process whose name does not start with the configured prefix – among them those that differ from
+    it in the case of a letter only – have no effect on the loaded configuration. -/
+theorem c20_prefix_foreign_ignored (d f : Val) (configured : List Char) (penv : ProcEnv) :
+    loadP d f configured penv = loadP d f configured (penv.filter fun e => !foreignTo configured e) := by
+  unfold loadP
+  rw [selectEnv_filter]
+
+/-- ... in particular removing or adding any number of foreign variables anywhere changes nothing -/
+theorem c20_prefix_foreign_irrelevant (d f : Val) (configured : List Char) (penv₁ penv₂ : ProcEnv)
+    (h : (penv₁.filter fun e => !foreignTo configured e) = (penv₂.filter fun e => !foreignTo configured e)) :
+    loadP d f configured penv₁ = loadP d f configured penv₂ := by
+  rw [c20_prefix_foreign_ignored d f configured penv₁, c20_prefix_foreign_ignored d f configured penv₂, h]
+
+/-- The prefix is compared as written: under the prefix `DemoCfg_` the variable `DemoCfg_PORT` is the property `port`,
+    `DEMOCFG_PORT` and `democfg_PORT` are foreign; under `democfg_` it is the other way round. (A loader that folds
+    the case of the configured prefix reads the wrong set of variables.) -/
+theorem c20_prefix_compared_as_written :
+    selectEnv c!"DemoCfg_" [(c!"DemoCfg_PORT", "8080"), (c!"DEMOCFG_PORT", "1"), (c!"democfg_PORT", "2")]
+      = [(c!"PORT", "8080")]
+    ∧ selectEnv c!"democfg_" [(c!"DemoCfg_PORT", "8080"), (c!"DEMOCFG_PORT", "1"), (c!"democfg_PORT", "2")]
+      = [(c!"PORT", "2")]
+    ∧ foreignTo c!"DemoCfg_" (c!"DEMOCFG_PORT", "1") = true := by decide
+
+/-- The result does not depend on the order in which the process enumerates its variables, whatever the prefix and
+    whatever else the environment holds. -/
+theorem c20_prefix_perm (d f : Val) (configured : List Char) (penv₁ penv₂ : ProcEnv) (hp : penv₁.Perm penv₂)
+    (h : Loadable d f (selectEnv configured penv₁) = true) :
+    loadP d f configured penv₁ ≈ loadP d f configured penv₂ :=
+  c20_perm d f _ _ (selectEnv_perm configured hp) h
+
+/-- File and environment are equivalent sources under every prefix: take any complete configuration `t` the naming rule
+    can express, split its leaves in any way between the file and variables named `<prefix><documented name>`, and let
+    the process environment hold any other variables in between (`hsel`: those that carry the prefix are exactly the
+    ones named for `Le`); the load gives the configuration the complete file gives. -/
+theorem c20_prefix_split (d t : Val) (Lf Le : List (Path × String)) (configured : List Char) (penv : ProcEnv)
+    (ht : Expressible t = true) (hc : d.compatB t = true) (hs : t.leaves.Perm (Lf ++ Le))
+    (hsel : (penv.filter fun e => !foreignTo configured e) = withPrefix (trimSpace configured) (envOf Le)) :
+    loadP d (fromLeaves Lf) configured penv ≈ load d t [] := by
+  rw [c20_prefix_foreign_ignored, hsel, c20_prefix_env_equiv]
+  exact c20_split d t Lf Le ht hc hs
+
+/-- the hypotheses are satisfiable: the demonstration's configuration, `port` and the second entry from variables
+    under a mixed-case prefix, a same-named upper-case variable and `PATH` in between -/
+example :
+    let t : Val := .map (.cons c!"log_level" (.atom "\"debug\"") (.cons c!"port" (.atom "8080")
+      (.cons c!"entries" (.seq (.cons (.map (.cons c!"name" (.atom "\"first\"") .nil))
+        (.cons (.map (.cons c!"name" (.atom "\"second\"") .nil)) .nil))) .nil)))
+    let Lf : List (Path × String) := [([.key c!"log_level"], "\"debug\""), ([.key c!"entries", .idx 0, .key c!"name"], "\"first\"")]
+    let Le : List (Path × String) := [([.key c!"port"], "8080"), ([.key c!"entries", .idx 1, .key c!"name"], "\"second\"")]
+    let penv : ProcEnv := [(c!"DEMOCFG_PORT", "1"), (c!"DemoCfg_PORT", "8080"), (c!"PATH", "\"/bin\""),
+      (c!"DemoCfg_ENTRIES_1_NAME", "\"second\"")]
+    Expressible t = true ∧ t.leaves.Perm (Lf ++ Le)
+    ∧ (penv.filter fun e => !foreignTo c!"DemoCfg_" e) = withPrefix (trimSpace c!"DemoCfg_") (envOf Le) := by
+  intro t Lf Le penv
+  have h1 : natDigits 1 = c!"1" := by rw [natDigits]; simp [digitChar]
+  have ht : trimSpace c!"DemoCfg_" = c!"DemoCfg_" := by decide
+  refine ⟨by decide, by decide, ?_⟩
+  have hn : envOf Le = [(c!"PORT", "8080"), (c!"ENTRIES_1_NAME", "\"second\"")] := by
+    simp [Le, envOf, envName, segName, escapeKey, h1]
+  rw [hn, ht]
+  decide
+
 /-! ## values: the environment spelling of a value the file can carry -/
 
 /-- The plain spelling of a value in an environment variable yields the same leaf as the file carrying the value,
@@ -511,5 +598,112 @@ open Heimdall.Config.Schema in
 example : schemaAcceptsType "authenticators" "jwt" = true ∧ loaderSupportsType "finalizers" "nope" = false
     ∧ loaderReadsOption "serve.proxy.respond.with" "precondition_error" = true
     ∧ schemaAcceptsOption "serve.proxy.respond.with" "argument_error" = false := by decide
+
+/-! ## options inside a mechanism's `config`: the file validation and the type factories know the same names
+
+Over the table measured on the running code in every run (`Gen/ConfigSchema.lean`, `mechOptionTable`): the real
+`ValidateConfig` and the real type factories were asked about every candidate name at every place below `config`. -/
+
+open Heimdall.Config.Schema in
+/-- obligation over the measured table, re-measured on the current code on every run -/
+theorem c20_mech_tables_agree : mechTablesAgree = true := by decide
+
+open Heimdall.Config.Schema in
+/-- For every mechanism type, every place below its `config` and EVERY option name: what the type factory reads passes
+    the validation of the file (so what is usable from variables is usable from a file); where both sides check names
+    they accept exactly the same names; and where a factory takes no notice of its config the file validation accepts
+    no option (nothing is accepted and then ignored). -/
+theorem c20_mech_options_schema_eq_loader (r : MechRow) (hr : r ∈ Heimdall.Gen.ConfigSchema.mechOptionTable)
+    (key : String) :
+    (r.loaderReads key = true → r.schemaAccepts key = true)
+    ∧ (r.schemaClosed = true → r.loaderClosed = true → r.schemaAccepts key = r.loaderReads key)
+    ∧ (r.loaderClosed = false → r.schemaAccepts key = false) := by
+  have h := c20_mech_tables_agree
+  simp only [mechTablesAgree, Bool.and_eq_true, List.all_eq_true] at h
+  have hok := h.1.2 r hr
+  unfold mechRowOk at hok
+  cases hl : r.loaderClosed with
+  | false =>
+    simp only [hl, Bool.false_eq_true, if_false, Bool.and_eq_true, List.isEmpty_iff] at hok
+    obtain ⟨⟨hsc, hsn⟩, _⟩ := hok
+    refine ⟨by simp [MechRow.loaderReads, hl], by simp, fun _ => ?_⟩
+    simp [MechRow.schemaAccepts, hsc, hsn]
+  | true =>
+    simp only [hl, if_true, Bool.or_eq_true, Bool.not_eq_true', Bool.and_eq_true, List.all_eq_true] at hok
+    refine ⟨fun hrd => ?_, fun hsc _ => ?_, by simp⟩
+    · simp only [MechRow.loaderReads, hl, Bool.true_and] at hrd
+      rcases hok with hopen | ⟨hsub, _⟩
+      · simp [MechRow.schemaAccepts, hopen]
+      · simp only [MechRow.schemaAccepts, Bool.or_eq_true]
+        exact Or.inr (hsub key (List.contains_iff_mem.mp hrd))
+    · rcases hok with hopen | ⟨hsub, hsup⟩
+      · rw [hsc] at hopen; exact absurd hopen (by simp)
+      · simp only [MechRow.schemaAccepts, MechRow.loaderReads, hsc, hl, Bool.not_true, Bool.false_or, Bool.true_and]
+        cases hs : r.schemaNames.contains key with
+        | true => exact (hsup key (List.contains_iff_mem.mp hs)).symm
+        | false =>
+          cases hk : r.loaderNames.contains key with
+          | false => rfl
+          | true =>
+            have := hsub key (List.contains_iff_mem.mp hk)
+            rw [hs] at this
+            exact this
+
+open Heimdall.Config.Schema in
+/-- not vacuous: measured rows of the table – a type that reads options (also below `config.endpoint`), and one whose
+    factory ignores the config -/
+example : (mechRow? "error_handlers" "www_authenticate" "").isSome = true
+    ∧ (mechRow? "authorizers" "remote" "endpoint").isSome = true
+    ∧ (mechRow? "finalizers" "noop" "").map (·.loaderClosed) = some false := by decide
+
+open Heimdall.Config.Schema in
+/-- Hence, as far as types and option names go: a mechanism declaration all of whose options stand where the factory
+    checks names is usable from a file if and only if it is usable from environment variables – for every category,
+    type and list of options. -/
+theorem c20_mech_usable_file_iff_env (d : MechDecl) (he : d.effective = true) :
+    d.usableFromFile = d.usableFromEnv := by
+  unfold MechDecl.usableFromFile MechDecl.usableFromEnv
+  cases hf : d.factoryAccepts with
+  | false => simp
+  | true =>
+    simp only [Bool.and_true]
+    simp only [MechDecl.factoryAccepts, Bool.and_eq_true, List.all_eq_true] at hf
+    simp only [MechDecl.effective, List.all_eq_true] at he
+    simp only [MechDecl.validationAccepts, Bool.and_eq_true, List.all_eq_true]
+    refine ⟨by rw [c20_schema_eq_loader.1]; exact hf.1, fun o ho => ?_⟩
+    have h1 := hf.2 o ho
+    have h2 := he o ho
+    cases hrow : mechRow? d.cat d.typ o.1 with
+    | none => simp [hrow] at h1
+    | some r =>
+      simp only [hrow] at h1 h2 ⊢
+      have hm : r ∈ Heimdall.Gen.ConfigSchema.mechOptionTable := List.mem_of_find?_eq_some hrow
+      apply (c20_mech_options_schema_eq_loader r hm o.2).1
+      simp only [MechRow.loaderRefuses, h2, Bool.true_and, Bool.not_eq_true', Bool.not_eq_false'] at h1
+      simp only [MechRow.loaderReads, h2, Bool.true_and]
+      exact h1
+
+open Heimdall.Config.Schema in
+/-- the hypothesis is satisfiable and both outcomes occur: the realm of a `www_authenticate` error handler is usable from
+    both sources, an option no factory reads from neither -/
+example :
+    let good : MechDecl := ⟨"error_handlers", "www_authenticate", [("", "realm")]⟩
+    let bad : MechDecl := ⟨"error_handlers", "www_authenticate", [("", "realm"), ("", "zz_unknown")]⟩
+    good.effective = true ∧ good.usableFromFile = true ∧ good.usableFromEnv = true
+    ∧ bad.effective = true ∧ bad.usableFromFile = false ∧ bad.usableFromEnv = false := by decide
+
+open Heimdall.Config.Schema in
+/-- What the hypothesis `effective` excludes, for every declaration: an option handed to a mechanism whose factory takes
+    no notice of its config (`noop`, `allow`, `deny`, `default`, `unauthorized`) is rejected in a file, while the same
+    variable changes nothing – it is no option of the mechanism. -/
+theorem c20_mech_ignored_config_refused_by_file (d : MechDecl) (o : String × String) (ho : o ∈ d.options)
+    (r : MechRow) (hrow : mechRow? d.cat d.typ o.1 = some r) (hl : r.loaderClosed = false) :
+    d.usableFromFile = false := by
+  have hm : r ∈ Heimdall.Gen.ConfigSchema.mechOptionTable := List.mem_of_find?_eq_some hrow
+  have hs := (c20_mech_options_schema_eq_loader r hm o.2).2.2 hl
+  have : d.validationAccepts = false := by
+    simp only [MechDecl.validationAccepts, Bool.and_eq_false_iff, List.all_eq_false]
+    exact Or.inr ⟨o, ho, by simp [hrow, hs]⟩
+  simp [MechDecl.usableFromFile, this]
 
 end Heimdall.Props.C20
